@@ -8,9 +8,9 @@ Proof. vm_compute. reflexivity. Qed.
 Lemma wiring_bounds_ok : bounds_ok wiring_mode2 = true /\ bounds_ok (firstn 2 wiring_mode1) = true.
 Proof. vm_compute. split; reflexivity. Qed.
 
-Theorem test_mode_close_fail_stop cfg j :
-  io_after_w (conversation_of driver_skeletons wiring_mode2 cfg) j = true ->
-  exists m, run (FClose j) (conversation_of driver_skeletons wiring_mode2 cfg) pst0 0 = Exit1 m
+Theorem test_mode_close_fail_stop cfg j k :
+  io_after_w (conversation_of driver_skeletons wiring_mode2 cfg) j k = true ->
+  exists m, run (FClose j k) (conversation_of driver_skeletons wiring_mode2 cfg) pst0 0 = Exit1 m
             /\ m < List.length (conversation_of driver_skeletons wiring_mode2 cfg).
 Proof. apply conversation_close_fail_stop; [exact skeletons_ok | exact (proj1 wiring_bounds_ok)]. Qed.
 
